@@ -7,6 +7,22 @@ import random
 from vcheck.vsched import explore
 
 
+_KNOWN = None
+
+
+def _known_signatures():
+    global _KNOWN
+    if _KNOWN is None:
+        import json
+        import os
+        p = os.path.join(os.path.dirname(os.path.dirname(os.path.abspath(__file__))), "known_findings.json")
+        try:
+            _KNOWN = {f["signature"] for f in json.load(open(p)).get("findings", []) if f.get("status") == "known"}
+        except Exception:  # noqa: BLE001
+            _KNOWN = set()
+    return _KNOWN
+
+
 def _unit(arg):
     modname, cfg, budget, cap = arg
     mod = importlib.import_module(modname)
@@ -18,7 +34,8 @@ def _unit(arg):
         if merge is not None and not r.internal:
             r.violations.extend(merge(acc, r, cfg) or [])
         return r
-    st, viols = explore.explore(run, budget, max_execs=cap)
+    known = _known_signatures()
+    st, viols = explore.explore(run, budget, max_execs=cap, stop_after_bad=40, is_known=lambda sig: sig in known)
     seen = set()
     keep = []
     for _, v in viols:
@@ -34,11 +51,21 @@ def _unit(arg):
             "viols": keep[:30], "nviol": len(viols), "acc": acc}
 
 
+def _weight(unit):
+    cfg, budget, _cap = unit
+    size = len(repr(cfg.get("program", cfg))) if isinstance(cfg, dict) else 100
+    dev = budget.get("total", sum(v for k, v in budget.items() if isinstance(v, int)))
+    line = 4 if isinstance(cfg, dict) and (cfg.get("line") or (cfg.get("cfg") or {}).get("line_files")) else 1
+    return size * (1 + dev) ** 2 * line
+
+
 def explore_units(ctx, modname, units, sample_n=4, label=lambda cfg: cfg, accs=None):
     """units: list of (cfg, budget, cap). Returns (coverage dict, violations, internal)."""
     rnd = random.Random(ctx.seed)
     order = list(range(len(units)))
     rnd.shuffle(order)
+    # heaviest units first (better load balance); the seed decides the order among equals
+    order.sort(key=lambda i: -_weight(units[i]))
     res = ctx.pmap("vcheck.common", "_unit", [(modname,) + tuple(units[i]) for i in order])
     tot_exec = tot_nodes = tot_steps = 0
     outcomes = set()
